@@ -85,11 +85,7 @@ func (c *Conn) Read(p []byte) (int, error) {
 			c.mu.Unlock()
 		}
 	}
-	vsched.WaitFor("conn.Read:"+c.Name, d.id(), func() bool {
-		c.mu.Lock()
-		defer c.mu.Unlock()
-		return len(d.buf) > 0 || d.wclosed || d.rclosed || d.readErr != nil
-	})
+	vsched.WaitFor("conn.Read:"+c.Name, d.id(), c.condReadable)
 	c.mu.Lock()
 	defer c.mu.Unlock()
 	if d.rclosed {
@@ -142,11 +138,7 @@ func (c *Conn) Write(p []byte) (int, error) {
 	sync := d.sync
 	c.mu.Unlock()
 	if sync {
-		vsched.WaitFor("conn.WriteDrain:"+c.Name, d.id(), func() bool {
-			c.mu.Lock()
-			defer c.mu.Unlock()
-			return len(d.buf) == 0 || d.rclosed
-		})
+		vsched.WaitFor("conn.WriteDrain:"+c.Name, d.id(), c.condDrained)
 		c.mu.Lock()
 		defer c.mu.Unlock()
 		if len(d.buf) > 0 {
@@ -222,13 +214,8 @@ func (c *Conn) ReadObj() uintptr { return c.r.id() }
 // and no complete frame is available. stop is evaluated by the scheduler.
 func (c *Conn) ReadFrameOr(stop func() bool) ([]byte, error) {
 	d := c.r
-	vsched.WaitFor("conn.ReadFrame:"+c.Name, d.id(), func() bool {
-		c.mu.Lock()
-		_, full := frameLen(d.buf)
-		ok := full || d.wclosed || d.rclosed
-		c.mu.Unlock()
-		return ok || (stop != nil && stop())
-	})
+	w := &frameWait{c: c, stop: stop}
+	vsched.WaitFor("conn.ReadFrame:"+c.Name, d.id(), w.cond)
 	c.mu.Lock()
 	defer c.mu.Unlock()
 	if n, full := frameLen(d.buf); full {
@@ -246,6 +233,43 @@ func (c *Conn) ReadFrameOr(stop func() bool) ([]byte, error) {
 		return nil, io.ErrUnexpectedEOF
 	}
 	return nil, nil
+}
+
+// Conditions are evaluated by the scheduler goroutine while every task is
+// parked. They are //go:norace and take no lock: the scheduler must neither
+// be reported against the tasks nor pass happens-before edges between them
+// (unlocking a real mutex would publish everything it has seen).
+
+//go:norace
+func (c *Conn) condReadable() bool {
+	d := c.r
+	return len(d.buf) > 0 || d.wclosed || d.rclosed || d.readErr != nil
+}
+
+//go:norace
+func (c *Conn) condDrained() bool { return len(c.w.buf) == 0 || c.w.rclosed }
+
+// FrameReadyNR is FrameReady for use inside scheduler-evaluated conditions.
+//
+//go:norace
+func (c *Conn) FrameReadyNR() bool {
+	b := c.r.buf
+	if len(b) < 4 {
+		return false
+	}
+	n := int(b[0]) | int(b[1])<<8 | int(b[2])<<16 | int(b[3])<<24
+	return n >= 4 && len(b) >= n
+}
+
+type frameWait struct {
+	c    *Conn
+	stop func() bool
+}
+
+//go:norace
+func (w *frameWait) cond() bool {
+	d := w.c.r
+	return w.c.FrameReadyNR() || d.wclosed || d.rclosed || (w.stop != nil && w.stop())
 }
 
 // TryFrames pops all complete frames currently readable without blocking
